@@ -120,7 +120,7 @@ func runOnSprintfn(ops []*Op) []byte {
 }
 
 func runOnSafeFormatter(ops []*Op) []byte {
-	return []byte(redact.Sprint(SafeFmtV{ops: ops}))
+	return []byte(redact.Sprint(newSafeFmtV(ops, 0)))
 }
 
 func checkC09(h *HistSpec) Result {
